@@ -69,25 +69,88 @@ def _ite_arr(c, A, B):
 
 @ext("__symcomp__")
 def symcomp(I, st, e, it, mod):
-    if not (isinstance(it, Opaque) and it.tag == "range"):
-        raise Unsupported(f"comprehension over {it!r}")
+    """[elt for v in range(n)] / [elt for v in symlist] / [elt for v in array]: a symbolic list whose k-th
+    element is elt evaluated with v bound to the k-th item (elt must be pure)."""
     g = e.generators[0]
-    if g.ifs or not isinstance(g.target, ast.Name):
+    if g.ifs:
         raise Unsupported("filtered symbolic comprehension")
-    lo, hi = it.info["lo"], it.info["hi"]
+    if isinstance(it, Opaque) and it.tag == "range":
+        lo, hi = it.info["lo"], it.info["hi"]
+        n = to_z3(hi, "int") - to_z3(lo, "int") if not (isinstance(lo, int) and lo == 0) else to_z3(hi, "int")
+        item = (lambda k: k if (isinstance(lo, int) and lo == 0) else to_z3(k, "int") + to_z3(lo, "int"))
+    elif is_symlist(st, it):
+        c = st.cell(it)
+        n, base = c["__symlen__"], c["__symelem__"]
+        item = lambda k: base(k)
+    elif isinstance(it, Ref) and it.kind == "arr":
+        a = st.arr(it)
+        n = a.shape[0]
+        item = (lambda k: a.at(k)) if a.ndim == 1 else (lambda k: st.new_arr(Arr(a.shape[1:], lambda *r: a.at(k, *r), a.sort)))
+    else:
+        raise Unsupported(f"comprehension over {it!r}")
+    env0 = dict(st.env)
     tau = fresh_scalar("int", "tau")
-    saved = dict(st.env)
-    n = len(st.pc)
-    st.pc.append(z3.And(tau >= to_z3(lo, "int"), tau < to_z3(hi, "int")))
-    st.env[g.target.id] = tau
-    v = I.eval(e.elt, st, mod)
-    del st.pc[n:]
-    st.env = saved
-    if isinstance(v, (Ref, tuple)) or v is None:
-        raise Unsupported("symbolic comprehension with non-scalar element")
-    vz = to_z3(v)
-    loz = to_z3(lo, "int")
-    return new_symlist(st, to_z3(hi, "int") - loz, lambda k: z3.substitute(vz, (tau, to_z3(k, "int") + loz if not (isinstance(lo, int) and lo == 0) else to_z3(k, "int"))))
+    nz = to_z3(n, "int")
+
+    def elem(k, cache={}):
+        saved = st.env
+        st.env = dict(env0)
+        npc = len(st.pc)
+        kz = to_z3(k, "int") if not isinstance(k, int) else k
+        st.pc.append(z3.And(to_z3(k, "int") >= 0, to_z3(k, "int") < nz))
+        try:
+            I.assign(g.target, item(kz), st, mod)
+            return I.eval(e.elt, st, mod)
+        finally:
+            del st.pc[npc:]
+            st.env = saved
+    probe = elem(tau)          # evaluates once symbolically: emits the element's obligations for all k
+    if isinstance(probe, Ref) and probe.kind == "arr":
+        kind = "array"
+    elif isinstance(probe, tuple):
+        kind = "tuple"
+    else:
+        kind = "scalar"
+    if kind == "scalar":
+        pz = to_z3(probe)
+        f = lambda k: z3.substitute(pz, (tau, to_z3(k, "int")))
+    elif kind == "array":
+        P = st.arr(probe)
+        f = lambda k, P=P: Arr(P.shape, lambda *r: z3.substitute(to_z3(P.at(*r)), (tau, to_z3(k, "int"))), P.sort)
+    else:
+        f = lambda k: tuple(z3.substitute(to_z3(x), (tau, to_z3(k, "int"))) if is_sym(x) else x for x in probe)
+    r = new_symlist(st, n, f, kind=kind)
+    return r
+
+
+@ext("__map__", "map(f, xs) / pool.map(f, xs): [f(x) for x in xs] in input order (A7)")
+def sym_map(I, st, args, kw, node):
+    fn, xs = args[0], args[1]
+    if isinstance(xs, Ref) and xs.kind == "arr":
+        a = st.arr(xs)
+        n = a.shape[0]
+        item = (lambda k: a.at(k)) if a.ndim == 1 else (lambda k: st.new_arr(Arr(a.shape[1:], lambda *r: a.at(k, *r), a.sort)))
+    elif is_symlist(st, xs):
+        c = st.cell(xs)
+        n, item = c["__symlen__"], c["__symelem__"]
+    else:
+        raise Unsupported("map over concrete iterable")
+    tau = fresh_scalar("int", "tau")
+    r = I.call_value(fn, [item(tau)], {}, st, None, node)
+    if hasattr(r, "outs"):
+        if len(r.outs) != 1 or r.outs[0].kind != "return":
+            raise Unsupported("mapped function forks")
+        I._adopt(st, r.outs[0].state)
+        r = r.outs[0].value
+    st.ghost["mapped"] = st.ghost.get("mapped", []) + [(fn, n)]
+    if isinstance(r, tuple):
+        f = lambda k: tuple(z3.substitute(to_z3(x), (tau, to_z3(k, "int"))) if is_sym(x) else x for x in r)
+        kind = "tuple"
+    else:
+        rz = to_z3(r)
+        f = lambda k: z3.substitute(rz, (tau, to_z3(k, "int")))
+        kind = "scalar"
+    return new_symlist(st, n, f, kind=kind)
 
 
 _np_array = EXT["numpy.array"]
@@ -101,7 +164,11 @@ def np_array(I, st, args, kw, node):
         if c["__kind__"] == "array":
             raise Unsupported("np.array of a list of batches (ragged)")
         el = c["__symelem__"]
-        return st.new_arr(Arr((c["__symlen__"],), lambda k: el(k), "real" if not z3.is_int(to_z3(el(0))) else "int"))
+        if c["__kind__"] == "tuple":
+            raise Unsupported("np.array of a list of tuples")
+        e0 = to_z3(el(0))
+        srt = "int" if z3.is_int(e0) else ("real" if z3.is_real(e0) else ("bool" if z3.is_bool(e0) else e0.sort()))
+        return st.new_arr(Arr((c["__symlen__"],), lambda k: el(k), srt))
     return _np_array(I, st, args, kw, node)
 
 
